@@ -21,7 +21,8 @@ RULE = ('1..8 directive lines are drawn from {.byte,.2byte,.4byte,.8byte lists o
         'other quote character, or a .zerountil target is at or before the cursor, or a forward label is used. '
         'Distinct = SHA-1 of the case JSON.')
 ASSUMPTIONS = [
-    'a numeric list never begins with a quoted-character literal (.byte \'a\', \'b\' is grammatically one string)',
+    'a single-quoted text directly after a numeric directive is a character literal when an operator or comma '
+    'follows it (.byte \'a\', \'b\' and .byte \'a\' + 1 are value lists), otherwise a string; the bytes agree for \'a\' alone',
     'string characters are printable ASCII (plus the listed escapes); \\0 is never followed by an octal digit',
     'fill counts are non-negative; first-pass expressions use earlier names only',
 ]
@@ -121,8 +122,16 @@ def _cases(draw, tier):
                     if not 0 <= v < (1 << (8 * w)):
                         feats.add('out-of-range-value')
                 vals.append(e)
-            if vals[0][0] == 'num' and vals[0][2] == 'chr':
-                vals[0] = ['num', vals[0][1], 'dec']
+            if draw(st.integers(0, 7)) == 0:
+                # a list that begins with a character literal is still a list of expressions
+                lit = ['num', ord(draw(st.sampled_from('aZq09 #~'))), 'chr']
+                vals[0] = draw(st.sampled_from([lit, ['bin', '+', lit, ['num', draw(st.integers(0, 9)), 'dec']],
+                                                ['bin', '-', lit, ['num', 1, 'dec']]]))
+            first = vals[0]
+            while first[0] == 'bin':
+                first = first[2]
+            if first[0] == 'num' and first[2] == 'chr':
+                feats.add('list-starts-with-character-literal')
             if w > 1 and general['endian'] == 'little':
                 feats.add('little-endian-multibyte')
             items.append({'t': 'data', 'd': d, 'vals': vals})
